@@ -200,23 +200,25 @@ func c11R2(r *Report) {
 	if r.Anchor("R2", "peer.handleEvent", he != nil) && bmF != nil {
 		r.Fn(he)
 		n := 0
-		for _, ci := range callsIn(he) {
+		// every call of Enqueue in package peer (the PeerRequest handler, or a helper factored out of it)
+		calls, _ := p.callSitesOf(enq)
+		for _, ci := range calls {
 			c, isc := ci.(*ssa.Call)
-			if !isc || c.Call.StaticCallee() != enq {
+			if !isc || relPkg(c.Parent()) != "peer" {
 				continue
 			}
 			n++
-			adv := false
-			for _, g := range guardsOf(c.Block()) {
-				g = g.norm()
+			r.Fn(c.Parent())
+			adv := p.guardedIP(c, func(g Guard) bool {
 				if gc, isg := g.Cond.(*ssa.Call); isg && g.Pol {
 					if cal := gc.Call.StaticCallee(); cal != nil && cal.Name() == "Get" && relPkg(cal) == "bitmap" {
 						if fv, _ := loadedField(gc.Call.Args[0]); fv == bmF {
-							adv = true
+							return true
 						}
 					}
 				}
-			}
+				return false
+			}, 0)
 			r.Check(adv, "R2", "handleEvent/Enqueue-only-advertised", c.Pos(), "blocks are queued only for pieces the peer advertises", "a block is queued for a piece the peer has not advertised")
 		}
 		r.Sentinel("R2", n, 1)
